@@ -444,8 +444,88 @@ def _binds_prev(ins_text):
     return s.endswith('{') or s.endswith('(')
 
 
+_KEYWORDS = set('as break const continue crate else enum extern false fn for if impl in let loop match mod move mut pub ref return self Self static struct '
+                'super trait true type unsafe use where while async await dyn requires ensures invariant decreases proof assert forall exists choose spec '
+                'open closed ghost tracked old final'.split())
+_IDENT_RE = re.compile(r'[A-Za-z_][A-Za-z0-9_]*$')
+
+
+def _var_positions(toks, name):
+    """Indices where `name` occurs as a plain variable: not a field / method (after `.`), not a path segment (`::` on either side),
+    not a struct-literal field name or label (`name:` directly after `{` or `,`)."""
+    out = []
+    for i, t in enumerate(toks):
+        if t != name:
+            continue
+        prev = toks[i - 1] if i else ''
+        prev2 = toks[i - 2] if i >= 2 else ''
+        nxt = toks[i + 1] if i + 1 < len(toks) else ''
+        nxt2 = toks[i + 2] if i + 2 < len(toks) else ''
+        if prev == '.' or (prev == ':' and prev2 == ':') or (nxt == ':' and nxt2 == ':'):
+            continue
+        if nxt == ':' and nxt2 != ':' and prev in ('{', ',', 'pub', ')'):
+            continue  # `name: value` in a struct literal / pattern / template
+        out.append(i)
+    return out
+
+
+def infer_renames(r0, r1):
+    """Local variables / parameters / closure parameters renamed consistently between the annotated copy's real tokens (r0) and the
+    current text (r1): every variable occurrence of `a` in r0 sits, in a same-length replaced run, opposite `b`, `a` no longer occurs
+    as a variable in r1 and `b` did not occur as a variable in r0.  Returns {a: b}."""
+    sm = difflib.SequenceMatcher(None, r0, r1, autojunk=False)
+    pairs = {}
+    for tag, i1, i2, j1, j2 in sm.get_opcodes():
+        if tag != 'replace' or i2 - i1 != j2 - j1:
+            continue
+        for k in range(i2 - i1):
+            a, b = r0[i1 + k], r1[j1 + k]
+            if a != b and _IDENT_RE.match(a) and _IDENT_RE.match(b) and a not in _KEYWORDS and b not in _KEYWORDS:
+                pairs.setdefault((a, b), []).append((i1 + k, j1 + k))
+    out = {}
+    for (a, b), pos in pairs.items():
+        va0, va1, vb0 = _var_positions(r0, a), _var_positions(r1, a), _var_positions(r0, b)
+        if va1 or vb0:
+            continue
+        if set(va0) <= set(p for p, _ in pos) and a not in out and b not in out.values():
+            out[a] = b
+    return out
+
+
+def _rename_text(text, ren):
+    """Token-level identifier substitution (variable occurrences only), trivia and comments preserved."""
+    ts = lex(text)
+    toks = texts(ts)
+    hit = set()
+    for a in ren:
+        hit.update(_var_positions(toks, a))
+    if not hit:
+        return text
+    out, pos = [], 0
+    for i, t in enumerate(ts):
+        out.append(text[pos:t[2]])
+        out.append(ren[t[1]] if i in hit else t[1])
+        pos = t[3]
+    out.append(text[pos:])
+    return ''.join(out)
+
+
 def merge(chunks, real_text):
     """Three-way token merge.  Returns (text, conflicts)."""
+    # consistent renames of locals in the current text are applied to the annotated copy first (real tokens AND annotations), so that
+    # ghost code keeps naming the same variables; recorded in merge.last_renames
+    base = []
+    for kind, t in chunks:
+        if kind in ('real', 'old'):
+            base.extend(texts(lex(t)))
+    merge.last_renames = {}
+    try:
+        ren = infer_renames(base, texts(lex(real_text)))
+    except Exception:
+        ren = {}
+    if ren:
+        chunks = [(kind, _rename_text(t, ren)) for kind, t in chunks]
+        merge.last_renames = ren
     # elements of the annotated copy in order, with R0 indices for real/old tokens
     r0 = []
     elems = []  # ('tok', r0index) | ('ins', text, pos) | ('old', [r0 indices], newtext or None)
@@ -555,7 +635,9 @@ def merge(chunks, real_text):
     suppress = set()
     conflicts = []
     dropped = []
+    reanchored = []
     n1 = len(r1)
+    matched1 = set(image.values())
     for e in elems:
         if e[0] == 'ins':
             _, t, p = e
@@ -574,14 +656,32 @@ def merge(chunks, real_text):
             elif prv is not None:
                 choice = ('after', prv)
             if choice is None and 0 < p < len(r0):
-                # both neighbours were deleted: if the whole deleted run around the insertion is bracket-balanced (a complete
-                # statement or expression went away), the insertion annotated code that no longer exists - it goes with it
                 a = p
                 while a > 0 and (a - 1) not in image:
                     a -= 1
                 b = p
                 while b < len(r0) and b not in image:
                     b += 1
+                # MOVED code: the tokens that followed (or preceded) the insertion reappear, exactly once, among the tokens of the
+                # current text that have no counterpart in the annotated copy -> the annotation moves with the statement it was
+                # attached to (a reordering of independent statements is a delete + insert for the differ)
+                moved = None
+                k_ = min(6, b - p)
+                if k_ >= 3:
+                    hits = [j for j in range(0, n1 - k_ + 1) if r1[j:j + k_] == r0[p:p + k_] and all(x not in matched1 for x in range(j, j + k_))]
+                    if len(hits) == 1:
+                        moved = ('before', hits[0])
+                k_ = min(6, p - a)
+                if moved is None and k_ >= 3:
+                    hits = [j for j in range(0, n1 - k_ + 1) if r1[j:j + k_] == r0[p - k_:p] and all(x not in matched1 for x in range(j, j + k_))]
+                    if len(hits) == 1:
+                        moved = ('after', hits[0] + k_ - 1)
+                if moved is not None:
+                    (before if moved[0] == 'before' else after).setdefault(moved[1], []).append(t)
+                    reanchored.append({'kind': 'annotation-followed-moved-code', 'text': t.strip()[:80]})
+                    continue
+                # both neighbours were deleted: if the whole deleted run around the insertion is bracket-balanced (a complete
+                # statement or expression went away), the insertion annotated code that no longer exists - it goes with it
                 depth, ok = 0, True
                 for tok in r0[a:b]:
                     if tok in ('(', '[', '{'):
@@ -592,6 +692,16 @@ def merge(chunks, real_text):
                             ok = False
                             break
                 if ok and depth == 0:
+                    # deleted, or moved to a place the annotation could not follow?  If most of the deleted tokens are among the
+                    # current text's unmatched tokens the code was moved or rewritten in place: losing the annotation is a merge
+                    # conflict (a failure of this function is then UNDECIDED), not the clean deletion of annotated code
+                    import collections
+                    un1 = collections.Counter(r1[j] for j in range(n1) if j not in matched1)
+                    run = collections.Counter(tok for tok in r0[a:b] if tok not in '()[]{};,.')
+                    common = sum(min(c, un1.get(tok, 0)) for tok, c in run.items())
+                    if sum(run.values()) >= 3 and common * 10 >= sum(run.values()) * 6:
+                        conflicts.append({'kind': 'annotation-of-moved-code', 'text': t.strip()[:80], 'contract': bool(re.search(r'\b(requires|ensures|invariant|decreases)\b', t))})
+                        continue
                     dropped.append({'kind': 'annotation-of-deleted-code', 'text': t.strip()[:80], 'deleted': ' '.join(r0[a:b])[:120]})
                     continue
             if choice is None:
@@ -624,6 +734,7 @@ def merge(chunks, real_text):
         pos = tok[3]
     out.append(real_text[pos:])
     merge.last_dropped = dropped
+    merge.last_reanchored = reanchored
     return ''.join(out), conflicts
 
 
@@ -684,6 +795,10 @@ def generate(unit_path, out_path, spec_root=None):
             for c in getattr(merge, 'last_dropped', []):
                 c['block'] = name
                 report.setdefault('dropped_with_code', []).append(c)
+            if getattr(merge, 'last_reanchored', None):
+                info['annotations_followed_moved_code'] = list(merge.last_reanchored)
+            if getattr(merge, 'last_renames', None):
+                info['renamed_locals_followed'] = dict(merge.last_renames)
             report['changed'].append(name)
             emit(body.split('\n'), name)
         emit([b['footer']], None)
